@@ -172,13 +172,15 @@ Qed.
 
 Lemma case_ok_sound : forall c, case_ok c = true -> hetero_valid c.
 Proof.
-  intros [pps exs sfs sss ssx] H. unfold case_ok, hetero_valid in *. simpl in *. boolsplit.
+  intros [pps exs sfs sss ssx ssa] H. unfold case_ok, hetero_valid in *. simpl in *. boolsplit.
   repeat split.
   - eapply forallb_Forall; [apply pp_ok_sound | assumption].
   - eapply forallb_Forall; [apply site_ok_sound | assumption].
   - eapply forallb_Forall; [apply site_ok_sound | assumption].
   - eapply forallb_Forall; [apply ss_ok_sound | assumption].
   - eapply forallb_Forall; [apply ssx_ok_sound | assumption].
+  - eapply forallb_Forall; [| eassumption]. intros t Ht. cbv beta in Ht. apply Qle_bool_R in Ht.
+    unfold tolAbsent. unfold Q2R at 2 in Ht. simpl in Ht. lra.
 Qed.
 
 (* non-vacuity: a concrete assemblage state accepted by the checker *)
@@ -187,5 +189,5 @@ Example case_ok_example :
                  PP KDissolve 0 (1#100) (97#10000) 0; PP KPrecip 0 (2#100) (2#100) (-(4#10))]
                 [SITE (1#100) (1#100)] [SITE (1#1000) (1000000001#1000000000000)]
                 [SS true [((6#10000), (6#10)); ((4#10000), (4#10))]]
-                [SSX true false 0 0 [SSXC (6#10000) (-(2#10)) (6#10) (-(2#10)) 0; SSXC (4#10000) (-(4#10)) (4#10) (-(4#10)) 0]]) = true.
+                [SSX true false 0 0 [SSXC (6#10000) (-(2#10)) (6#10) (-(2#10)) 0; SSXC (4#10000) (-(4#10)) (4#10) (-(4#10)) 0]] [1 # 1000000000000000000000000000]) = true.
 Proof. vm_compute. reflexivity. Qed.
